@@ -12,6 +12,9 @@ CLAIMS = {
  "C11": dict(cat="fault_enumeration", tech="TLA+ oracle (Kv.tla CrashProbe + PagerInv.tla Owner1) for enumeration of open paths: clean close, every crash image (C01 machinery) incl. crashes during recovery; TLC trace validation of the observations and of the allocation state projected right after the open",
    text="every open path is enumerated on real crash images and clean reopens; the recovered database must pass check_integrity with unchanged contents, its allocator state must be exactly the owned pages (sampled images), writes after recovery must not damage contents.",
    note="allocation-state projection on a sample of crash images; known finding C11/integrity-false-after-unpersisted-growth is reported separately", ref="DESIGN.md 4/C11"),
+ "C10": dict(cat="exploration", tech="TLA+ predicates Forest.tla (well-formed checksummed forest) evaluated by TLC (ForestTrace.tla) on images that an independent decoder (/verif/decoder, written from docs/design.md, own XXH3) extracts from the storage bytes after every durable commit, compaction and clean close of random histories",
+   text="exploration with a specification oracle: the storage bytes are decoded without redb's reader, and TLC decides Forest!WellFormed (strictly increasing keys, routing keys bound both subtrees, equal leaf depth, counts, no page referenced twice / overlapping, every checksum from slot to leaf) on each image; damaged copies of real images must be rejected in every run.",
+   note="a static-structure property: the specification is the judge of decoded images, the histories are sampled; inline multimap value order not decoded", ref="DESIGN.md 4/C10"),
  "C13": dict(cat="fault_enumeration", tech="TLA+ oracle (Kv.tla Compact + CrashAtomic) with TLC trace validation of compaction-heavy histories and crash enumeration of every backend operation issued during compaction",
    text="contents unchanged, refusals as documented, file never larger, bounded syncs, and all crash points inside compaction recover to the unchanged contents.",
    note="pass bound is a function of the file size (8 * (pages + 8) syncs)", ref="DESIGN.md 4/C13"),
